@@ -93,7 +93,7 @@ fn run_case(f: &[String]) -> String {
     format!("probes={pr};cycles={}", snaps.join("#"))
 }
 
-fn generate(tier: &str, _seed: u64, emit: &mut dyn FnMut(Case)) {
+fn generate(tier: &str, seed: u64, emit: &mut dyn FnMut(Case)) {
     let kinds = ['a', 'd', 'f', 'D', 'F', 'x'];
     let path = hex(b"PATH"); let ld = hex(b"LD_LIBRARY_PATH"); let cpath = hex(b"CPATH");
     let explicit: Vec<(String, &str)> = vec![
@@ -110,6 +110,20 @@ fn generate(tier: &str, _seed: u64, emit: &mut dyn FnMut(Case)) {
             emit(Case { fields: vec![k.clone(), e.clone(), names.clone()], tags: vec![("kind".into(), format!("exh-{ename}")), ("ndirs".into(), ndirs.to_string())], nontrivial: ndirs > 0 });
         }
     } } } }
+    // sampled: random kinds with random explicit entries on the path variables (all behaviours, all scopes incl. process types
+    // named like the phases, delimiters with several bytes / line breaks, empty values)
+    let vars: [&[u8]; 6] = [b"PATH", b"LD_LIBRARY_PATH", b"LIBRARY_PATH", b"CPATH", b"PKG_CONFIG_PATH", b"OTHER"];
+    let vals: [&[u8]; 7] = [b"", b"/x", b"/a:/b", b":", b";\n", b"::", b"\xff"];
+    let scopes = ["A", "B", "L", "P:776562", "P:6275696c64", "P:6c61756e6368"];
+    let n = if tier == "thorough" { 6000 } else { 600 };
+    for idx in 0..n {
+        let mut r = Rng::for_case(seed, idx);
+        let k: String = (0..4).map(|_| *r.pick(&kinds)).collect();
+        let m = r.below(6);
+        let ins: Vec<String> = (0..m).map(|_| format!("{}/{}/{}/{}", r.pick(&scopes), r.pick(&["a", "d", "m", "o", "p"]), hex(*r.pick(&vars)), hex(*r.pick(&vals)))).collect();
+        let ndirs = k.chars().filter(|c| *c == 'd' || *c == 'D').count();
+        emit(Case { fields: vec![k, join(",", &ins), names.clone()], tags: vec![("kind".into(), "rnd".into()), ("ndirs".into(), ndirs.to_string()), ("n_ins".into(), m.to_string())], nontrivial: ndirs > 0 && m > 0 });
+    }
 }
 
 fn main() { main_loop_jobs("c10", 8, &generate, &run_case); }
